@@ -24,7 +24,7 @@ LEVEL_NOTE = ('chi^2 values are chosen off the thresholds (equality is outside t
 RULE = ("cases: chunks of kind sequences; executions: filter_output per (sequence, criterion, input form, naming); one evaluation per source placed; non-trivial = distinct "
         "(sequence, criterion) that contain both good and bad sources")
 ASSUMPTIONS = ["best chi^2 never equals the threshold", "n_data >= 1"]
-REQUIRED_CLASSES = ['statistic-a-hair-below-the-threshold', 'best-chi2-exactly-zero', 'outputs-named-AUTO', 'ranking-with-tied-rows', 'output-names-derived-from-the-input-name', 'bare-output-names', 'ranking-ends-in-nan-rows', 'record-over-64KiB-among-small-ones', 'arguments-by-position', 'criterion-chi', 'criterion-cpd', 'auto-names', 'explicit-names', 'input-file', 'input-list', 'all-good', 'all-bad', 'mixed', 'good-by-chi-only', 'good-by-cpd-only',
+REQUIRED_CLASSES = ['automatic-names-for-an-input-with-dots-in-its-name', 'statistic-a-hair-below-the-threshold', 'best-chi2-exactly-zero', 'outputs-named-AUTO', 'ranking-with-tied-rows', 'output-names-derived-from-the-input-name', 'bare-output-names', 'ranking-ends-in-nan-rows', 'record-over-64KiB-among-small-ones', 'arguments-by-position', 'criterion-chi', 'criterion-cpd', 'auto-names', 'explicit-names', 'input-file', 'input-list', 'all-good', 'all-bad', 'mixed', 'good-by-chi-only', 'good-by-cpd-only',
                     'length-10', 'one-name-explicit', 'best-chi2-nan-or-inf', 'flags-edited-in-place-between-calls']
 TIMEOUT = {'quick': 600, 'thorough': 3000}
 
@@ -157,7 +157,11 @@ def run_case(ctx, case, rec, d):
                 n += 1
                 recs = [_record(k, j, meta) for j, k in enumerate(seq)]
                 want_c = [canon(_strip(r)) for r in recs]
-                inp = os.path.join(d, 'in_%d%s' % (n, '_good' if n % 5 == 0 else ''))       # an input that is itself a '_good' file of an earlier pass
+                # an input that is itself a '_good' file of an earlier pass; inputs whose names hold dots (the automatic names append to the whole name)
+                sfx = ['_good', '', '.run2', '', '.v1.2.fits', '.'][n % 6]
+                inp = os.path.join(d, 'in_%d%s' % (n, sfx))
+                if '.' in sfx and frm == 'file' and naming in ('auto', 'good-explicit', 'bad-explicit'):
+                    rec.cls('automatic-names-for-an-input-with-dots-in-its-name')
                 if frm == 'file':
                     fo = FitInfoFile(inp, 'w')
                     for r in recs:
